@@ -34,7 +34,7 @@ PROP = dict(
              "atomic-step model tied to the code by regenerated constants, an AST check of Next, and a concurrent stress run on "
              "peer.Connection compared with the model's id set",
         design_ref="DESIGN.md section 5 C38",
-        note="Lean kernel; atomicity of atomic.Uint64.Add trusted; AST shape check; stress-run coverage",
+        note="Lean kernel; atomicity of atomic.Uint64.Add trusted; AST shape check; stress-run coverage (thorough: also under the Go race detector)",
         technique="Lean 4 proof (closed form of any schedule) + AST tie + concurrent differential stress",
     ),
 )
@@ -67,3 +67,32 @@ def before_diff(c):
             dst = os.path.join(c.tmp, "drv_c38")
             shutil.copy2(binp, dst)
             c.drivers["c38"] = dst
+
+
+def extra(c):
+    """Thorough tier: the stress ops again on a -race build of the harness (the Go race detector watches every
+    access of the allocator and of peer.Connection made by the concurrent NextStreamID calls)."""
+    import os
+    import subprocess
+    import vlib
+
+    if c.tier != "thorough" or not c.harness or "c38" not in c.drivers:
+        return
+    binp, blog = vlib.build_harness(["c38"], race=True)
+    if binp is None:
+        # no race-capable toolchain here (needs cgo): not a property failure
+        vlib.log("C38: -race build unavailable, skipped:", (blog or "")[-200:].replace("\n", " | "))
+        c.p.setdefault("extra_coverage", {})["c38_race_run"] = "skipped: race build unavailable"
+        return
+    ops = ["conc d 64 2000", "conc l 64 2000", "pair 32 1000", "cold d 400 4", "cold l 400 3", "warm d 4096 16 256", "life d 30", "alife l 30"]
+    env = dict(os.environ, GORACE="halt_on_error=0 log_path=stderr")
+    p = subprocess.run([binp, "c38", "run"], input="\n".join(ops) + "\n", stdout=subprocess.PIPE, stderr=subprocess.PIPE, text=True, timeout=600, env=env)
+    got = [l for l in p.stdout.split("\n") if l]
+    want = c.lean_run("c38", ops)
+    races = p.stderr.count("WARNING: DATA RACE")
+    agree = len(got) == len(ops) and all(vlib.outputs_agree(g, w) for g, w in zip(got, want))
+    c.oblige("race-detector:stream-id-stress", "tie", races == 0 and agree,
+             "races=%d agree=%s stderr=%s" % (races, agree, p.stderr[-600:]))
+    if races or not agree:
+        c.violate("race detector / stress run on the -race build", {"engine": "c38", "ops": ops, "impl_outputs": got, "model_outputs": want, "races": races}, not agree)
+    c.p.setdefault("extra_coverage", {})["c38_race_run"] = "%d ops, %d data races reported" % (len(ops), races)
